@@ -1069,6 +1069,27 @@ def order_of_requests(R, seed):
                 if vb[0] != 'refused' or vg != ('ok', good):
                     R.violation('%s: member f (public name %r) of a variant derived with child_attrs=%r: %r is %s, %r is %s' % (rname, declared_name, req, bad, vb, good, vg), case,
                                 mech='child_attrs_not_applied_to_member_with_public_name' if declared_name else 'child_attrs_not_applied')
+        # the member with a public name is inherited: a variant of the subclass reads it like the subclass does, whichever member the derivation is about
+        for about in ('g', 'f'):
+            R.evaluations += 1
+            Base = fresh({'f': Unicode(sub_name='F')})
+            n[0] += 1
+            Sub = type('OR%d' % n[0], (Base,), {'g': Unicode, '__namespace__': 'urn:vf:c15:or'})
+            before = {rname: reader(Sub, 'F', good) for reader, rname in ((read_xml, 'xml'), (read_json, 'json'))}
+            V = Sub.customize(child_attrs={about: req})
+            case = {'scenario': 'order_of_requests', 'seed': seed, 'inherited_public_name': True, 'derivation_about': about, 'request': sorted(req)}
+            for reader, rname in ((read_xml, 'xml'), (read_json, 'json')):
+                R.count('public_name_reads')
+                now, via_v, bad_v = reader(Sub, 'F', good), reader(V, 'F', good), reader(V, 'F', bad)
+                if now != before[rname] or now != ('ok', good):
+                    R.violation('%s: the subclass reads its inherited member <F> as %r, before a variant was derived as %r' % (rname, now, before[rname]), case,
+                                mech='frame:inherited_public_name_member_of_original')
+                elif via_v != ('ok', good):
+                    R.violation('%s: variant of a subclass (child_attrs about %r) reads the inherited member <F>%s as %r; the subclass itself gives %r' % (
+                                rname, about, good, via_v, now), case, mech='variant_of_subclass_drops_inherited_public_name')
+                elif about == 'f' and bad_v[0] != 'refused':
+                    R.violation('%s: variant of a subclass with child_attrs for the inherited member <F>: %r is %r' % (rname, bad, bad_v), case,
+                                mech='child_attrs_not_applied_to_inherited_member_with_public_name')
         # the derivation gives the member its public name
         R.evaluations += 1
         C = fresh({'f': Unicode})
